@@ -29,12 +29,12 @@ CLAIMED["C04"] = dict(
    note="Trusts: the atomic-turn + prefix-visibility model, the monitors' reading of executor state through the verif accessors, scenario templates that are deadlock-free by construction (every receive has a matching send). Transport loss/duplication is not injected because the real channels cannot produce it.",
    technique="deterministic simulation: seeded interleaving search with history oracle (receive logs) and per-step conservation/FIFO/wake-up invariants")
 CLAIMED["C15"] = dict(
-   text="The injected fault is a process failure: a victim fails at a generated point (builtin domain errors, missing file, ownership violation, injected backend write error, spawn/send/nested-select inside a receive filter) inside a generated system of by-standers, direct and transitive single-source awaiters that await before, during or after the failure, and senders to the victim. Under every sampled schedule/configuration the by-standers and senders must end with their model results, every transitive awaiter with exactly the victim's error, the client with its value or that error; any panic or Err from Worker::step/Environment::step, any hang, and any abnormal child-process death is a violation. A multi-source selector listing the victim is counted but deliberately not judged (the statement is silent). Sampling, not proof.",
+   text="The injected fault is a process failure: a victim fails at a generated point (builtin domain errors, missing file, ownership violation, injected backend write error, spawn/send/nested-select inside a receive filter) inside a generated system of by-standers, direct and transitive single-source awaiters that await before, during or after the failure, and senders to the victim. Under every sampled schedule/configuration the by-standers and senders must end with their model results, every transitive awaiter with exactly the victim's error, the client with its value or that error; any panic or Err from Worker::step/Environment::step, any hang, and any abnormal child-process death is a violation. Pollers that listed the victim once in a non-blocking select and no longer await it when it fails (one already finished, one alive) must keep their normal results; out-of-domain calls of pure builtins and an effect result over the binary size limit are among the failure points; REPL sessions with ill-behaved lines (nil-cut lines, top-level tail calls, a polled process failing while the session sleeps) must survive. A multi-source selector racing the victim's failure against a message is counted, not judged (either outcome is legal). Sampling, not proof.",
    ref="DESIGN.md §6 C15",
-   note="Trusts: scenario templates and their host-side expectations, the SimBackend's model of open/read/write errors, the atomic-turn model. Only failure kinds in the template list are placed; builtin boundary-value search is out of scope (C12, n/a).",
+   note="Trusts: scenario templates and their host-side expectations, the SimBackend's model of open/read/write errors, the atomic-turn model. Only failure kinds in the template list are placed (32 out-of-domain builtin calls taken from a probe of 4084 edge calls that found no panic); systematic builtin boundary-value search stays out of scope (C12, n/a).",
    technique="deterministic simulation with fault injection (process failure as the fault): seeded interleaving search with per-process outcome oracle and panic/Err/hang detection")
 CLAIMED["C14"] = dict(
-   text="Generated systems of processes open files on a simulated backend, use them, transfer the handles by every documented route (bare message, nested in a tuple, captured by a closure sent in a message, spawn argument, spawn capture), try to use them after giving them away, leave them in mailboxes, and terminate normally or by failure, awaited or not, while the backend injects submit/completion errors, short I/O and delayed/reordered completions. After every environment turn a model of the documented ownership rules is replayed over the recorded history (events in the order the environment consumed them, calls the backend received): a request on an open resource reaches the backend iff it comes from the model owner; a rejected requester ends with a runtime error; no automatic close while the model owner is alive; the environment's table equals the model for every open resource; at quiescence every resource whose owner has terminated has been closed. Sampling, not proof. The known finding (owner never awaited => never closed) is keyed separately and does not mask other causes.",
+   text="Generated systems of processes open files on a simulated backend, use them, transfer the handles by every documented route (bare message, nested in a tuple, captured by a closure sent in a message, spawn argument, spawn capture), try to use them after giving them away, leave them in mailboxes, and terminate normally or by failure, awaited or not, while the backend injects submit/completion errors, short I/O and delayed/reordered completions. After every environment turn a model of the documented ownership rules is replayed over the recorded history (events in the order the environment consumed them, calls the backend received): a request on an open resource reaches the backend iff it comes from the model owner; a rejected requester ends with a runtime error; no automatic close while the model owner is alive; the environment's table equals the model for every open resource; at quiescence every resource whose owner has terminated has been closed. Sampling, not proof. The known finding (owner never awaited by anybody => never closed) is keyed by history (no await query ever named the owner) and does not mask an owner that was awaited but whose completion was never reported, nor one that was reported and not closed.",
    ref="DESIGN.md §6 C14",
    note="Trusts: SimBackend's model of the io_uring backend (open/close immediate, read/write/flush asynchronous), the history model of the ownership rules, the atomic-turn model. Not judged (statement silent): a handle delivered to a process whose termination was already reported; operations on closed resources.",
    technique="deterministic simulation with fault injection: seeded interleaving + backend-fault search with a reference model of ownership replayed over the recorded history")
@@ -44,17 +44,17 @@ CLAIMED["C06"] = dict(
    note="Trusts: Executor::reachable_heap_indices as the definition of 'reachable' (the runtime's own tracing oracle), the verif accessors, the episode templates' byte model. 'Only via select_state.receiving' cannot exist at a turn boundary (the mailbox copy is still there) and is reported, not required.",
    technique="deterministic simulation: seeded interleaving/quantum search with per-turn accounting invariants, shadow-copy oracle and byte model")
 CLAIMED["C05"] = dict(
-   text="A subject process performs 1-3 generated selects (awaited children that finish, fail or never finish; typed receives with and without filter bodies, some long enough to span many turns at quantum 1; timeouts incl. 0; await-only races over 3-4 children) followed by zero-timeout drains, while a stimulus script sends unique typed messages, releases children and lets virtual time pass. After every turn of the subject's worker the monitor records what the subject could see (mailbox at slice start, results known, clock value, vector clock, whether its await exchange was complete); at the end an executable reference model of select judges every completion: the yielding source was ready and yielded the earliest message its filter accepts; no earlier-written source was ready (mailbox content, results known to the worker or causally known through the FIFO star topology, timeouts elapsed by the implementation's own clock values); a timeout never yields nil earlier than its duration of true virtual time after the select was entered (backward wall-clock steps included); the drains check that untaken messages kept their order. Sampling, not proof.",
+   text="A subject process performs 1-3 generated selects (awaited children that finish, fail or never finish; typed receives with and without filter bodies, some long enough to span many turns at quantum 1; timeouts incl. 0; await-only races over 3-4 children) followed by zero-timeout drains, while a stimulus script sends unique typed messages, releases children and lets virtual time pass. After every turn of the subject's worker the monitor records what the subject could see (mailbox at slice start, results known, clock value, vector clock, whether its await exchange was complete); at the end an executable reference model of select judges every completion: the yielding source was ready and yielded the earliest message its filter accepts; no earlier-written source was ready (mailbox content, results known to the worker or contained in the select's own await snapshot, timeouts elapsed by the implementation's own clock values); a failed child is a source like any other: the subject dies of it only if it is listed in the current select and is the first ready source in written order, never because of a process listed only in an earlier, completed select; a timeout never yields nil earlier than its duration of true virtual time after the select was entered (backward wall-clock steps included); the drains check that untaken messages kept their order. Sampling, not proof.",
    ref="DESIGN.md §6 C05, §4.1",
-   note="Trusts: the host-side filter/type model of the generated sources, the vector-clock reading of 'ready' for remote completions (strictly-later turn of the finishing worker known to the subject's worker), the simulated clock. A late failure of a process listed in an earlier, already completed select may kill the subject: counted, not judged (the statement is silent).",
+   note="Trusts: the host-side filter/type model of the generated sources, the snapshot criterion for remote completions (finished before its worker answered this select's query, or before the select was entered), the simulated clock.",
    technique="deterministic simulation: seeded interleaving + virtual-clock search with an executable reference model of select evaluated over the recorded history")
 CLAIMED["C11"] = dict(
-   text="A generated list of steps (int/binary bindings, shadowing, destructuring, named tuples and field access, functions and closures capturing earlier bindings incl. binaries, type aliases, uses of the flowing previous result, processes that outlive their line and are awaited on a later one, occasional nil-valued steps and a final runtime error) is evaluated (a) prefix by prefix as ONE program in a fresh environment - the reference values and variables - and (b) as a REPL session under a random partition into lines with rejected lines (parse and compile errors) inserted in between, an optional second session sharing the environment, and variable reads at random boundaries, each under a sampled schedule/configuration (1-4 workers, quantum down to 1, JSON transport, both drive modes) with the heap-accounting monitors on. Every accepted line must yield the value of the corresponding one-program prefix (until the one-program form short-circuits on nil), every rejected line must be rejected and leave values and variables (names, formatted types, values) as in the one-program run. Sampling, not proof.",
+   text="A generated list of steps (int/binary bindings, shadowing, destructuring, named tuples and field access, functions and closures capturing earlier bindings incl. binaries, type aliases, uses of the flowing previous result, processes that outlive their line and are awaited on a later one, occasional nil-valued steps and a final runtime error) is evaluated (a) prefix by prefix as ONE program in a fresh environment - the reference values and variables - and (b) as a REPL session under a random partition into lines with rejected lines (parse and compile errors) inserted in between, an optional second session sharing the environment, and variable reads at random boundaries, each under a sampled schedule/configuration (1-4 workers, quantum down to 1, JSON transport, both drive modes) with the heap-accounting monitors on. Every accepted line must yield the value of the corresponding one-program prefix (until the one-program form short-circuits on nil; after that, bindings made before the stopping step must still read their values), every rejected line must be rejected and leave values and variables (names, formatted types, values) as in the one-program run. Two known findings (static facts established by a fallible pattern step are not carried to later lines) are keyed by the step list and printed as KNOWN-FINDING. Sampling, not proof.",
    ref="DESIGN.md §6 C11",
    note="Trusts: the step generator producing well-typed programs (a generated prefix the front end rejects is a harness error), the harness re-implementation of the CLI's REPL loop (request_process_types -> Repl::evaluate -> poll). Type aliases are hoisted to the front of the one-program form because the parser accepts alias declarations only before the first step.",
    technique="deterministic simulation: history (line partition + rejected lines) and schedule search against one-shot reference executions, with per-turn heap invariants")
 CLAIMED["C13"] = dict(
-   text="Scoped to what a simulator can vary: placement of minting processes on 1-6 workers, values crossing process and worker boundaries, and program updates between construction and comparison. Pairs from a small value universe (small/big ints, constant vs heap-rope vs sliced binaries, named/unnamed/labelled/nested tuples, Ok) are built locally on one side and, on the other, arrive as a process result, in a message to a comparer that captured the first value, as a spawn capture, from an in-memory module, or are built on a later REPL line after a same-shape tuple with different field types was merged (canonical-shape table recomputed). Both orders and the reflexive comparison are evaluated; refs minted by several processes and by the REPL process across lines are compared pairwise and returned. The verdict vector must equal the model's structural equality under every sampled placement and schedule, and all refs must be pairwise distinct. Sampling; no claim to cover the space of syntactic construction paths (that part is a pure function).",
+   text="Scoped to what a simulator can vary: placement of minting processes on 1-6 workers, values crossing process and worker boundaries, and program updates between construction and comparison. Pairs from a small value universe (small/big ints, constant vs heap-rope vs sliced binaries, named/unnamed/labelled/nested tuples incl. spread-built and generic-returned ones, Ok, closures with equal and different captures, byte-equal tilings of different unit length) are built locally on one side and, on the other, arrive as a process result, in a message to a comparer that captured the first value, as a spawn capture, from an in-memory module, or are built on a later REPL line after a same-shape tuple with different field types was merged (canonical-shape table recomputed). Both orders and the reflexive comparison are evaluated; refs minted by several processes and by the REPL process across lines are compared pairwise and returned (one scenario in twenty mints more than 2^16 refs on one worker); handles of the same process obtained by the spawner, by `&.` at several call depths, after a tail call and on different REPL lines must be equal, handles of different processes unequal. The verdict vector must equal the model's structural equality under every sampled placement and schedule, and all refs must be pairwise distinct. Sampling; no claim to cover the space of syntactic construction paths (that part is a pure function).",
    ref="DESIGN.md §6 C13",
    note="Trusts: the value universe's host-side equality keys. Verdicts are captured as `[v] = [a =&b]`; a plain `v = a =&b` binding followed by further steps is avoided because the compiler narrows `a` after a failing pinned match and drops later steps (sequential-core behaviour, outside this property's simulated scope; noted in DESIGN.md).",
    technique="deterministic simulation: placement/schedule search with a structural-equality model over values transported across process, worker and program-update boundaries")
